@@ -697,3 +697,413 @@ Proof.
     destruct n as [|[|[|[|n]]]]; [vm_compute; reflexivity .. | vm_compute in Hn; discriminate Hn].
   - vm_compute. reflexivity.
 Qed.
+
+(** ** The whole game in IEEE 754 binary64: Bradley-Terry (BTF and BTP).
+
+    [C06_rate_bt_sigma_le_binary64]: for [rate_core k P tau limit teams keys] (k = BTF or BTP)
+    evaluated on doubles, the posterior sigma at every result position [i][j] is a finite double
+    with 0 <= sigma' <= sigma_inflated, where sigma_inflated = [r_sigma (inflate tau p)] =
+    fl(sqrt(fl(fl(sigma*sigma) + fl(tau*tau)))) is the very double the code computes for the player
+    [p] passed at teams[i][j]; with [limit = true] also sigma' <= the prior sigma of [p].  No
+    rounding slack.  [C06_compute_bt_sigma_le_binary64] is the same for [compute k P trs] on
+    arbitrary team ratings [trs] (sigma' <= the sigma [compute] was given).
+
+    Hypotheses.  (a) Domain facts: >= 2 teams; one key per team; exp64 >= 0 and pow64 (x ** 2)
+    >= 0 on finite arguments; kappa finite in [0,1]; prior sigmas >= 0 (used only for the lower
+    bound under [limit]); the gamma callback >= 0 on the arguments it receives.  beta is not
+    constrained.  (b) No overflow / no NaN, quantified over the model's own terms: [trs] is the
+    list of team ratings [rate_sorted] builds from the tau-inflated, rank-sorted game and
+    [opps] pairs each team with the opponents its kind uses (BTF: all other teams, BTP: ladder
+    neighbours); for each team [ti] and each of its opponents [tq]: [c_iq] finite, the argument
+    (mu_q - mu_i) / c_iq of exp finite, 1 + exp(..) finite; for each player: share * delta
+    finite; and the sigmas [compute] returns are finite.
+    Everything else is derived: finiteness of the prior and of the inflated sigma, of the team
+    variances, of share, of every prefix of the accumulated delta and of each term, of 1 - p, of
+    1 - share * delta (cannot overflow: share * delta >= 0), of the max and the square root;
+    c_iq > 0 (finite, and a finite quotient has a non-zero divisor); team variance > 0.
+    What cannot be derived and stays a hypothesis: a finite product or quotient does not make
+    its operands finite (x / inf = 0), and max(-inf, kappa) = kappa hides an overflow of
+    share * delta. *)
+From OSV.Lemmas Require FloatRateL.
+
+Theorem C06_compute_bt_sigma_le_binary64 :
+  forall (exp64 erfc64 pow64 icdf64 : binary64 -> binary64)
+         (k : kind) (P : params binary64) (trs : list (trating binary64)),
+  k = BTF \/ k = BTP ->
+  (forall x : binary64, is_finite 53 1024 x = true -> 0 <= B2R 53 1024 (exp64 x)) ->
+  (forall x : binary64, is_finite 53 1024 x = true -> 0 <= B2R 53 1024 (pow64 x)) ->
+  is_finite 53 1024 (p_kappa P) = true ->
+  0 <= B2R 53 1024 (p_kappa P) <= 1 ->
+  (2 <= length trs)%nat ->
+  (forall ti : trating binary64, In ti trs -> 0 <= B2R 53 1024 (t_ss ti)) ->
+  (forall ti : trating binary64, In ti trs -> forall p : rating binary64, In p (t_team ti) ->
+     0 <= B2R 53 1024 (r_sigma p)) ->
+  forall opps : list (trating binary64 * list (trating binary64)),
+  opps = match k with BTF => @opponents_full binary64 trs | _ => @opponents_part binary64 trs end ->
+  (forall (ti : trating binary64) (opp : list (trating binary64)), In (ti, opp) opps ->
+   forall tq : trating binary64, In tq opp ->
+     0 <= B2R 53 1024 (@gamma_of binary64 P (@c_iq binary64 (B64Num exp64 erfc64 pow64 icdf64) P ti tq) trs ti)
+     /\ is_finite 53 1024 (@c_iq binary64 (B64Num exp64 erfc64 pow64 icdf64) P ti tq) = true
+     /\ is_finite 53 1024
+          (@fdiv binary64 (B64Num exp64 erfc64 pow64 icdf64)
+             (@fsub binary64 (B64Num exp64 erfc64 pow64 icdf64) (t_mu tq) (t_mu ti))
+             (@c_iq binary64 (B64Num exp64 erfc64 pow64 icdf64) P ti tq)) = true
+     /\ is_finite 53 1024
+          (@fadd binary64 (B64Num exp64 erfc64 pow64 icdf64) (@fone binary64 (B64Num exp64 erfc64 pow64 icdf64))
+             (exp64 (@fdiv binary64 (B64Num exp64 erfc64 pow64 icdf64)
+                       (@fsub binary64 (B64Num exp64 erfc64 pow64 icdf64) (t_mu tq) (t_mu ti))
+                       (@c_iq binary64 (B64Num exp64 erfc64 pow64 icdf64) P ti tq)))) = true) ->
+  (forall (ti : trating binary64) (opp : list (trating binary64)), In (ti, opp) opps ->
+   forall p : rating binary64, In p (t_team ti) ->
+     is_finite 53 1024
+       (@fmul binary64 (B64Num exp64 erfc64 pow64 icdf64)
+          (@fdiv binary64 (B64Num exp64 erfc64 pow64 icdf64)
+             (@fpow2 binary64 (B64Num exp64 erfc64 pow64 icdf64) (r_sigma p)) (t_ss ti))
+          (snd (fold_left (@bt_term binary64 (B64Num exp64 erfc64 pow64 icdf64) P trs ti) opp
+                  (@fzero binary64 (B64Num exp64 erfc64 pow64 icdf64),
+                   @fzero binary64 (B64Num exp64 erfc64 pow64 icdf64))))) = true) ->
+  (forall res : list (rating binary64),
+     In res (@compute binary64 (B64Num exp64 erfc64 pow64 icdf64) k P trs) ->
+     forall r : rating binary64, In r res -> is_finite 53 1024 (r_sigma r) = true) ->
+  Forall2 (Forall2 (fun p r : rating binary64 =>
+      is_finite 53 1024 (r_sigma p) = true
+      /\ is_finite 53 1024 (r_sigma r) = true
+      /\ 0 <= B2R 53 1024 (r_sigma r) <= B2R 53 1024 (r_sigma p)))
+    (map t_team trs) (@compute binary64 (B64Num exp64 erfc64 pow64 icdf64) k P trs).
+Proof. exact FloatRateL.compute_bt_sigma_le_b64. Qed.
+Print Assumptions C06_compute_bt_sigma_le_binary64.
+
+Theorem C06_rate_bt_sigma_le_binary64 :
+  forall (exp64 erfc64 pow64 icdf64 : binary64 -> binary64)
+         (k : kind) (P : params binary64) (tau : binary64) (limit : bool)
+         (teams : list (list (rating binary64))) (keys : option (list key)),
+  k = BTF \/ k = BTP ->
+  match keys with Some ks => length ks = length teams | None => True end ->
+  (2 <= length teams)%nat ->
+  (forall x : binary64, is_finite 53 1024 x = true -> 0 <= B2R 53 1024 (exp64 x)) ->
+  (forall x : binary64, is_finite 53 1024 x = true -> 0 <= B2R 53 1024 (pow64 x)) ->
+  is_finite 53 1024 (p_kappa P) = true ->
+  0 <= B2R 53 1024 (p_kappa P) <= 1 ->
+  (forall t : list (rating binary64), In t teams -> forall p : rating binary64, In p t ->
+     0 <= B2R 53 1024 (r_sigma p)) ->
+  forall trs : list (trating binary64),
+  trs = match keys with
+        | None =>
+            @team_ratings binary64 (B64Num exp64 erfc64 pow64 icdf64)
+              (map (map (@inflate binary64 (B64Num exp64 erfc64 pow64 icdf64) tau)) teams)
+              (seq 0 (length (map (map (@inflate binary64 (B64Num exp64 erfc64 pow64 icdf64) tau)) teams)))
+        | Some ks =>
+            @team_ratings binary64 (B64Num exp64 erfc64 pow64 icdf64)
+              (fst (unwind key_leb ks (map (map (@inflate binary64 (B64Num exp64 erfc64 pow64 icdf64) tau)) teams)))
+              (calc_rankings key_ltb (isort key_leb ks))
+        end ->
+  forall opps : list (trating binary64 * list (trating binary64)),
+  opps = match k with BTF => @opponents_full binary64 trs | _ => @opponents_part binary64 trs end ->
+  (forall (ti : trating binary64) (opp : list (trating binary64)), In (ti, opp) opps ->
+   forall tq : trating binary64, In tq opp ->
+     0 <= B2R 53 1024 (@gamma_of binary64 P (@c_iq binary64 (B64Num exp64 erfc64 pow64 icdf64) P ti tq) trs ti)
+     /\ is_finite 53 1024 (@c_iq binary64 (B64Num exp64 erfc64 pow64 icdf64) P ti tq) = true
+     /\ is_finite 53 1024
+          (@fdiv binary64 (B64Num exp64 erfc64 pow64 icdf64)
+             (@fsub binary64 (B64Num exp64 erfc64 pow64 icdf64) (t_mu tq) (t_mu ti))
+             (@c_iq binary64 (B64Num exp64 erfc64 pow64 icdf64) P ti tq)) = true
+     /\ is_finite 53 1024
+          (@fadd binary64 (B64Num exp64 erfc64 pow64 icdf64) (@fone binary64 (B64Num exp64 erfc64 pow64 icdf64))
+             (exp64 (@fdiv binary64 (B64Num exp64 erfc64 pow64 icdf64)
+                       (@fsub binary64 (B64Num exp64 erfc64 pow64 icdf64) (t_mu tq) (t_mu ti))
+                       (@c_iq binary64 (B64Num exp64 erfc64 pow64 icdf64) P ti tq)))) = true) ->
+  (forall (ti : trating binary64) (opp : list (trating binary64)), In (ti, opp) opps ->
+   forall p : rating binary64, In p (t_team ti) ->
+     is_finite 53 1024
+       (@fmul binary64 (B64Num exp64 erfc64 pow64 icdf64)
+          (@fdiv binary64 (B64Num exp64 erfc64 pow64 icdf64)
+             (@fpow2 binary64 (B64Num exp64 erfc64 pow64 icdf64) (r_sigma p)) (t_ss ti))
+          (snd (fold_left (@bt_term binary64 (B64Num exp64 erfc64 pow64 icdf64) P trs ti) opp
+                  (@fzero binary64 (B64Num exp64 erfc64 pow64 icdf64),
+                   @fzero binary64 (B64Num exp64 erfc64 pow64 icdf64))))) = true) ->
+  (forall res : list (rating binary64),
+     In res (@compute binary64 (B64Num exp64 erfc64 pow64 icdf64) k P trs) ->
+     forall r : rating binary64, In r res -> is_finite 53 1024 (r_sigma r) = true) ->
+  Forall2 (Forall2 (fun p r : rating binary64 =>
+      is_finite 53 1024 (r_sigma r) = true
+      /\ 0 <= B2R 53 1024 (r_sigma r)
+           <= B2R 53 1024 (r_sigma (@inflate binary64 (B64Num exp64 erfc64 pow64 icdf64) tau p))
+      /\ (limit = true -> B2R 53 1024 (r_sigma r) <= B2R 53 1024 (r_sigma p))))
+    teams (@rate_core binary64 (B64Num exp64 erfc64 pow64 icdf64) k P tau limit teams keys).
+Proof. exact FloatRateL.rate_bt_sigma_le_b64. Qed.
+Print Assumptions C06_rate_bt_sigma_le_binary64.
+
+(** Non-vacuity.  Stand-ins for libm: [exp := |x|], [x ** 2 := x * x].  beta = 25/6,
+    kappa = 2^-13, default gamma.
+    [compute], BTP (ladder neighbours): three teams, [(25, 25/3); (30.5, 7.25)], [(27, 6)],
+    [(22, 9)] with ranks 0, 1, 1 (the last two tied). *)
+Example C06_compute_bt_sigma_le_binary64_example :
+  let N := B64Num b64_abs (fun x => x) (fun x => b64_mult mode_NE x x) (fun x => x) in
+  let P := @mkParams binary64 (b64_of_bits 4616377268039232171) (b64_of_dyadic 1 (-13))
+             (@gamma_default binary64 N) in
+  let game := [[@mkRating binary64 (b64_of_bits 4627730092099895296) (b64_of_bits 4620880867666602667) 0%Z NmNone;
+                @mkRating binary64 (b64_of_bits 4629278204471803904) (b64_of_bits 4619848792751996928) 1%Z NmNone];
+               [@mkRating binary64 (b64_of_Z 27) (b64_of_Z 6) 2%Z NmNone];
+               [@mkRating binary64 (b64_of_Z 22) (b64_of_Z 9) 3%Z NmNone]] in
+  let trs := @team_ratings binary64 N game [0; 1; 1]%nat in
+  Forall2 (Forall2 (fun p r : rating binary64 =>
+      is_finite 53 1024 (r_sigma p) = true
+      /\ is_finite 53 1024 (r_sigma r) = true
+      /\ 0 <= B2R 53 1024 (r_sigma r) <= B2R 53 1024 (r_sigma p)))
+    (map t_team trs) (@compute binary64 N BTP P trs)
+  /\ forallb (fun tr => forallb (fun pr => b64_ltb (r_sigma (snd pr)) (r_sigma (fst pr)))
+                          (combine (fst tr) (snd tr)))
+       (combine (map t_team trs) (@compute binary64 N BTP P trs)) = true.
+Proof.
+  intros N P game trs. split; [|vm_compute; reflexivity].
+  apply (C06_compute_bt_sigma_le_binary64 b64_abs (fun x => x) (fun x => b64_mult mode_NE x x) (fun x => x)
+           BTP P trs) with (opps := @opponents_part binary64 trs).
+  - right. reflexivity.
+  - intros x _. apply FloatRateL.b64_abs_nonneg.
+  - intros x _. apply FloatRateL.b64_square_nonneg.
+  - vm_compute. reflexivity.
+  - split; [apply FloatOrderL.b64_sign_nonneg | apply FloatOrderL.b64_leb_one_le_1]; vm_compute; reflexivity.
+  - vm_compute. repeat constructor.
+  - apply (FloatRateL.b64_nonneg_check (@t_ss binary64)). vm_compute. reflexivity.
+  - apply (FloatRateL.b64_nonneg_check2 (@t_team binary64) (@r_sigma binary64)). vm_compute. reflexivity.
+  - reflexivity.
+  - apply FloatRateL.bt_pair_check. vm_compute. reflexivity.
+  - apply FloatRateL.bt_share_delta_check. vm_compute. reflexivity.
+  - apply FloatRateL.results_fin_check. vm_compute. reflexivity.
+Qed.
+
+(** [rate_core], BTF (all other teams), [limit = true], tau = 2^-4, the same three teams passed
+    with rank values 2, 1, 2: the second team wins, the first and the third are tied; the result
+    is reported in the order of the input.  Second conjunct (by computation on doubles): every
+    posterior sigma is strictly below the prior sigma here. *)
+Example C06_rate_bt_sigma_le_binary64_example :
+  let N := B64Num b64_abs (fun x => x) (fun x => b64_mult mode_NE x x) (fun x => x) in
+  let P := @mkParams binary64 (b64_of_bits 4616377268039232171) (b64_of_dyadic 1 (-13))
+             (@gamma_default binary64 N) in
+  let tau := b64_of_dyadic 1 (-4) in
+  let teams := [[@mkRating binary64 (b64_of_bits 4627730092099895296) (b64_of_bits 4620880867666602667) 0%Z NmNone;
+                 @mkRating binary64 (b64_of_bits 4629278204471803904) (b64_of_bits 4619848792751996928) 1%Z NmNone];
+                [@mkRating binary64 (b64_of_Z 27) (b64_of_Z 6) 2%Z NmNone];
+                [@mkRating binary64 (b64_of_Z 22) (b64_of_Z 9) 3%Z NmNone]] in
+  let keys := Some [(2, 0)%Z; (1, 0)%Z; (2, 0)%Z] in
+  Forall2 (Forall2 (fun p r : rating binary64 =>
+      is_finite 53 1024 (r_sigma r) = true
+      /\ 0 <= B2R 53 1024 (r_sigma r) <= B2R 53 1024 (r_sigma (@inflate binary64 N tau p))
+      /\ (true = true -> B2R 53 1024 (r_sigma r) <= B2R 53 1024 (r_sigma p))))
+    teams (@rate_core binary64 N BTF P tau true teams keys)
+  /\ forallb (fun tr => forallb (fun pr => b64_ltb (r_sigma (snd pr)) (r_sigma (fst pr)))
+                          (combine (fst tr) (snd tr)))
+       (combine teams (@rate_core binary64 N BTF P tau true teams keys)) = true.
+Proof.
+  intros N P tau teams keys. split; [|vm_compute; reflexivity].
+  apply (C06_rate_bt_sigma_le_binary64 b64_abs (fun x => x) (fun x => b64_mult mode_NE x x) (fun x => x)
+           BTF P tau true teams keys)
+    with (trs := @team_ratings binary64 N
+                   (fst (unwind key_leb [(2, 0)%Z; (1, 0)%Z; (2, 0)%Z] (map (map (@inflate binary64 N tau)) teams)))
+                   (calc_rankings key_ltb (isort key_leb [(2, 0)%Z; (1, 0)%Z; (2, 0)%Z])))
+         (opps := @opponents_full binary64
+                    (@team_ratings binary64 N
+                       (fst (unwind key_leb [(2, 0)%Z; (1, 0)%Z; (2, 0)%Z] (map (map (@inflate binary64 N tau)) teams)))
+                       (calc_rankings key_ltb (isort key_leb [(2, 0)%Z; (1, 0)%Z; (2, 0)%Z])))).
+  - left. reflexivity.
+  - reflexivity.
+  - vm_compute. repeat constructor.
+  - intros x _. apply FloatRateL.b64_abs_nonneg.
+  - intros x _. apply FloatRateL.b64_square_nonneg.
+  - vm_compute. reflexivity.
+  - split; [apply FloatOrderL.b64_sign_nonneg | apply FloatOrderL.b64_leb_one_le_1]; vm_compute; reflexivity.
+  - apply FloatRateL.sigmas_nonneg_check. vm_compute. reflexivity.
+  - reflexivity.
+  - reflexivity.
+  - apply FloatRateL.bt_pair_check. vm_compute. reflexivity.
+  - apply FloatRateL.bt_share_delta_check. vm_compute. reflexivity.
+  - apply FloatRateL.results_fin_check. vm_compute. reflexivity.
+Qed.
+
+(** ** The whole game in IEEE 754 binary64: Plackett-Luce.
+
+    [C06_rate_pl_sigma_le_binary64] / [C06_compute_pl_sigma_le_binary64]: the same conclusions for
+    k = PL.  [c] is the scale [pl_c P trs] and [qs] the list of entries (index, team, sum_q, A_q)
+    [compute_pl] folds over.  Hypotheses (a): number of teams <= 2^53 (the tie counts A_q convert
+    exactly), exp64 >= 0 and pow64 >= 0 on finite arguments, kappa finite in [0,1], prior sigmas
+    >= 0, gamma >= 0 on the arguments it receives; (b): [c] finite, each argument mu_i / c of exp
+    finite, each sum [sum_q] finite, share * delta finite for each player, result sigmas finite.
+    Derived: finiteness of the team variances (from [c]), of every summand and prefix of the
+    sums, of p, 1 - p, each term and every prefix of the accumulated delta, of the factor
+    sigma_i^2 / c^2 and its sign (also when c^2 overflows: x / inf = 0), and the rest as for
+    Bradley-Terry.  (No ">= 2 teams" premise is needed for this kind.) *)
+Theorem C06_compute_pl_sigma_le_binary64 :
+  forall (exp64 erfc64 pow64 icdf64 : binary64 -> binary64)
+         (P : params binary64) (trs : list (trating binary64)),
+  (forall x : binary64, is_finite 53 1024 x = true -> 0 <= B2R 53 1024 (exp64 x)) ->
+  (forall x : binary64, is_finite 53 1024 x = true -> 0 <= B2R 53 1024 (pow64 x)) ->
+  is_finite 53 1024 (p_kappa P) = true ->
+  0 <= B2R 53 1024 (p_kappa P) <= 1 ->
+  (Z.of_nat (length trs) <= 9007199254740992)%Z ->
+  (forall ti : trating binary64, In ti trs -> 0 <= B2R 53 1024 (t_ss ti)) ->
+  (forall ti : trating binary64, In ti trs -> forall p : rating binary64, In p (t_team ti) ->
+     0 <= B2R 53 1024 (r_sigma p)) ->
+  forall c : binary64, c = @pl_c binary64 (B64Num exp64 erfc64 pow64 icdf64) P trs ->
+  forall qs : list (nat * (trating binary64 * (binary64 * nat))),
+  qs = combine (seq 0 (length trs))
+         (combine trs (combine (@pl_sum_q binary64 (B64Num exp64 erfc64 pow64 icdf64) trs c) (@pl_a binary64 trs))) ->
+  is_finite 53 1024 c = true ->
+  (forall ti : trating binary64, In ti trs ->
+     0 <= B2R 53 1024 (@gamma_of binary64 P c trs ti)
+     /\ is_finite 53 1024 (@fdiv binary64 (B64Num exp64 erfc64 pow64 icdf64) (t_mu ti) c) = true) ->
+  (forall s : binary64, In s (@pl_sum_q binary64 (B64Num exp64 erfc64 pow64 icdf64) trs c) ->
+     is_finite 53 1024 s = true) ->
+  (forall (i : nat) (ti : trating binary64) (sq : binary64) (a : nat), In (i, (ti, (sq, a))) qs ->
+   forall p : rating binary64, In p (t_team ti) ->
+     is_finite 53 1024
+       (@fmul binary64 (B64Num exp64 erfc64 pow64 icdf64)
+          (@fdiv binary64 (B64Num exp64 erfc64 pow64 icdf64)
+             (@fpow2 binary64 (B64Num exp64 erfc64 pow64 icdf64) (r_sigma p)) (t_ss ti))
+          (snd (@pl_omega_delta binary64 (B64Num exp64 erfc64 pow64 icdf64) P trs c qs i ti))) = true) ->
+  (forall res : list (rating binary64),
+     In res (@compute binary64 (B64Num exp64 erfc64 pow64 icdf64) PL P trs) ->
+     forall r : rating binary64, In r res -> is_finite 53 1024 (r_sigma r) = true) ->
+  Forall2 (Forall2 (fun p r : rating binary64 =>
+      is_finite 53 1024 (r_sigma p) = true
+      /\ is_finite 53 1024 (r_sigma r) = true
+      /\ 0 <= B2R 53 1024 (r_sigma r) <= B2R 53 1024 (r_sigma p)))
+    (map t_team trs) (@compute binary64 (B64Num exp64 erfc64 pow64 icdf64) PL P trs).
+Proof. exact FloatRateL.compute_pl_sigma_le_b64. Qed.
+Print Assumptions C06_compute_pl_sigma_le_binary64.
+
+Theorem C06_rate_pl_sigma_le_binary64 :
+  forall (exp64 erfc64 pow64 icdf64 : binary64 -> binary64)
+         (P : params binary64) (tau : binary64) (limit : bool)
+         (teams : list (list (rating binary64))) (keys : option (list key)),
+  match keys with Some ks => length ks = length teams | None => True end ->
+  (Z.of_nat (length teams) <= 9007199254740992)%Z ->
+  (forall x : binary64, is_finite 53 1024 x = true -> 0 <= B2R 53 1024 (exp64 x)) ->
+  (forall x : binary64, is_finite 53 1024 x = true -> 0 <= B2R 53 1024 (pow64 x)) ->
+  is_finite 53 1024 (p_kappa P) = true ->
+  0 <= B2R 53 1024 (p_kappa P) <= 1 ->
+  (forall t : list (rating binary64), In t teams -> forall p : rating binary64, In p t ->
+     0 <= B2R 53 1024 (r_sigma p)) ->
+  forall trs : list (trating binary64),
+  trs = match keys with
+        | None =>
+            @team_ratings binary64 (B64Num exp64 erfc64 pow64 icdf64)
+              (map (map (@inflate binary64 (B64Num exp64 erfc64 pow64 icdf64) tau)) teams)
+              (seq 0 (length (map (map (@inflate binary64 (B64Num exp64 erfc64 pow64 icdf64) tau)) teams)))
+        | Some ks =>
+            @team_ratings binary64 (B64Num exp64 erfc64 pow64 icdf64)
+              (fst (unwind key_leb ks (map (map (@inflate binary64 (B64Num exp64 erfc64 pow64 icdf64) tau)) teams)))
+              (calc_rankings key_ltb (isort key_leb ks))
+        end ->
+  forall c : binary64, c = @pl_c binary64 (B64Num exp64 erfc64 pow64 icdf64) P trs ->
+  forall qs : list (nat * (trating binary64 * (binary64 * nat))),
+  qs = combine (seq 0 (length trs))
+         (combine trs (combine (@pl_sum_q binary64 (B64Num exp64 erfc64 pow64 icdf64) trs c) (@pl_a binary64 trs))) ->
+  is_finite 53 1024 c = true ->
+  (forall ti : trating binary64, In ti trs ->
+     0 <= B2R 53 1024 (@gamma_of binary64 P c trs ti)
+     /\ is_finite 53 1024 (@fdiv binary64 (B64Num exp64 erfc64 pow64 icdf64) (t_mu ti) c) = true) ->
+  (forall s : binary64, In s (@pl_sum_q binary64 (B64Num exp64 erfc64 pow64 icdf64) trs c) ->
+     is_finite 53 1024 s = true) ->
+  (forall (i : nat) (ti : trating binary64) (sq : binary64) (a : nat), In (i, (ti, (sq, a))) qs ->
+   forall p : rating binary64, In p (t_team ti) ->
+     is_finite 53 1024
+       (@fmul binary64 (B64Num exp64 erfc64 pow64 icdf64)
+          (@fdiv binary64 (B64Num exp64 erfc64 pow64 icdf64)
+             (@fpow2 binary64 (B64Num exp64 erfc64 pow64 icdf64) (r_sigma p)) (t_ss ti))
+          (snd (@pl_omega_delta binary64 (B64Num exp64 erfc64 pow64 icdf64) P trs c qs i ti))) = true) ->
+  (forall res : list (rating binary64),
+     In res (@compute binary64 (B64Num exp64 erfc64 pow64 icdf64) PL P trs) ->
+     forall r : rating binary64, In r res -> is_finite 53 1024 (r_sigma r) = true) ->
+  Forall2 (Forall2 (fun p r : rating binary64 =>
+      is_finite 53 1024 (r_sigma r) = true
+      /\ 0 <= B2R 53 1024 (r_sigma r)
+           <= B2R 53 1024 (r_sigma (@inflate binary64 (B64Num exp64 erfc64 pow64 icdf64) tau p))
+      /\ (limit = true -> B2R 53 1024 (r_sigma r) <= B2R 53 1024 (r_sigma p))))
+    teams (@rate_core binary64 (B64Num exp64 erfc64 pow64 icdf64) PL P tau limit teams keys).
+Proof. exact FloatRateL.rate_pl_sigma_le_b64. Qed.
+Print Assumptions C06_rate_pl_sigma_le_binary64.
+
+(** Non-vacuity (same stand-ins, parameters and teams as above).  [compute] with ranks 0, 1, 1. *)
+Example C06_compute_pl_sigma_le_binary64_example :
+  let N := B64Num b64_abs (fun x => x) (fun x => b64_mult mode_NE x x) (fun x => x) in
+  let P := @mkParams binary64 (b64_of_bits 4616377268039232171) (b64_of_dyadic 1 (-13))
+             (@gamma_default binary64 N) in
+  let game := [[@mkRating binary64 (b64_of_bits 4627730092099895296) (b64_of_bits 4620880867666602667) 0%Z NmNone;
+                @mkRating binary64 (b64_of_bits 4629278204471803904) (b64_of_bits 4619848792751996928) 1%Z NmNone];
+               [@mkRating binary64 (b64_of_Z 27) (b64_of_Z 6) 2%Z NmNone];
+               [@mkRating binary64 (b64_of_Z 22) (b64_of_Z 9) 3%Z NmNone]] in
+  let trs := @team_ratings binary64 N game [0; 1; 1]%nat in
+  Forall2 (Forall2 (fun p r : rating binary64 =>
+      is_finite 53 1024 (r_sigma p) = true
+      /\ is_finite 53 1024 (r_sigma r) = true
+      /\ 0 <= B2R 53 1024 (r_sigma r) <= B2R 53 1024 (r_sigma p)))
+    (map t_team trs) (@compute binary64 N PL P trs)
+  /\ forallb (fun tr => forallb (fun pr => b64_ltb (r_sigma (snd pr)) (r_sigma (fst pr)))
+                          (combine (fst tr) (snd tr)))
+       (combine (map t_team trs) (@compute binary64 N PL P trs)) = true.
+Proof.
+  intros N P game trs. split; [|vm_compute; reflexivity].
+  apply (C06_compute_pl_sigma_le_binary64 b64_abs (fun x => x) (fun x => b64_mult mode_NE x x) (fun x => x) P trs)
+    with (c := @pl_c binary64 N P trs)
+         (qs := combine (seq 0 (length trs))
+                  (combine trs (combine (@pl_sum_q binary64 N trs (@pl_c binary64 N P trs)) (@pl_a binary64 trs)))).
+  - intros x _. apply FloatRateL.b64_abs_nonneg.
+  - intros x _. apply FloatRateL.b64_square_nonneg.
+  - vm_compute. reflexivity.
+  - split; [apply FloatOrderL.b64_sign_nonneg | apply FloatOrderL.b64_leb_one_le_1]; vm_compute; reflexivity.
+  - vm_compute. discriminate.
+  - apply (FloatRateL.b64_nonneg_check (@t_ss binary64)). vm_compute. reflexivity.
+  - apply (FloatRateL.b64_nonneg_check2 (@t_team binary64) (@r_sigma binary64)). vm_compute. reflexivity.
+  - reflexivity.
+  - reflexivity.
+  - vm_compute. reflexivity.
+  - apply FloatRateL.pl_team_check. vm_compute. reflexivity.
+  - apply FloatRateL.fin_list_check. vm_compute. reflexivity.
+  - apply FloatRateL.pl_share_delta_check. vm_compute. reflexivity.
+  - apply FloatRateL.results_fin_check. vm_compute. reflexivity.
+Qed.
+
+(** [rate_core], PL, no rank values (teams ranked in the order given), [limit = false], tau = 2^-4.
+    Second conjunct (by computation): every posterior sigma is strictly below the inflated sigma. *)
+Example C06_rate_pl_sigma_le_binary64_example :
+  let N := B64Num b64_abs (fun x => x) (fun x => b64_mult mode_NE x x) (fun x => x) in
+  let P := @mkParams binary64 (b64_of_bits 4616377268039232171) (b64_of_dyadic 1 (-13))
+             (@gamma_default binary64 N) in
+  let tau := b64_of_dyadic 1 (-4) in
+  let teams := [[@mkRating binary64 (b64_of_bits 4627730092099895296) (b64_of_bits 4620880867666602667) 0%Z NmNone;
+                 @mkRating binary64 (b64_of_bits 4629278204471803904) (b64_of_bits 4619848792751996928) 1%Z NmNone];
+                [@mkRating binary64 (b64_of_Z 27) (b64_of_Z 6) 2%Z NmNone];
+                [@mkRating binary64 (b64_of_Z 22) (b64_of_Z 9) 3%Z NmNone]] in
+  Forall2 (Forall2 (fun p r : rating binary64 =>
+      is_finite 53 1024 (r_sigma r) = true
+      /\ 0 <= B2R 53 1024 (r_sigma r) <= B2R 53 1024 (r_sigma (@inflate binary64 N tau p))
+      /\ (false = true -> B2R 53 1024 (r_sigma r) <= B2R 53 1024 (r_sigma p))))
+    teams (@rate_core binary64 N PL P tau false teams None)
+  /\ forallb (fun tr => forallb (fun pr => b64_ltb (r_sigma (snd pr)) (r_sigma (@inflate binary64 N tau (fst pr))))
+                          (combine (fst tr) (snd tr)))
+       (combine teams (@rate_core binary64 N PL P tau false teams None)) = true.
+Proof.
+  intros N P tau teams. split; [|vm_compute; reflexivity].
+  pose (trs := @team_ratings binary64 N (map (map (@inflate binary64 N tau)) teams)
+                 (seq 0 (length (map (map (@inflate binary64 N tau)) teams)))).
+  apply (C06_rate_pl_sigma_le_binary64 b64_abs (fun x => x) (fun x => b64_mult mode_NE x x) (fun x => x)
+           P tau false teams None)
+    with (trs := trs) (c := @pl_c binary64 N P trs)
+         (qs := combine (seq 0 (length trs))
+                  (combine trs (combine (@pl_sum_q binary64 N trs (@pl_c binary64 N P trs)) (@pl_a binary64 trs)))).
+  - exact I.
+  - vm_compute. discriminate.
+  - intros x _. apply FloatRateL.b64_abs_nonneg.
+  - intros x _. apply FloatRateL.b64_square_nonneg.
+  - vm_compute. reflexivity.
+  - split; [apply FloatOrderL.b64_sign_nonneg | apply FloatOrderL.b64_leb_one_le_1]; vm_compute; reflexivity.
+  - apply FloatRateL.sigmas_nonneg_check. vm_compute. reflexivity.
+  - reflexivity.
+  - reflexivity.
+  - reflexivity.
+  - vm_compute. reflexivity.
+  - apply FloatRateL.pl_team_check. vm_compute. reflexivity.
+  - apply FloatRateL.fin_list_check. vm_compute. reflexivity.
+  - apply FloatRateL.pl_share_delta_check. vm_compute. reflexivity.
+  - apply FloatRateL.results_fin_check. vm_compute. reflexivity.
+Qed.
